@@ -82,7 +82,7 @@ def handleTrap (line : String) : String :=
       let sb0 : SBus := { mem := mem0, trace := #[], budget := 200000 }
       let handler : Option (Script SBus) := if path == "N" then none else some (scriptOf k t)
       let bus := trapBus sbus t handler
-      let (stop, mach) := Impl.runExt (Generated.opTable model) Generated.consts model bus 20000 0x0800 true
+      let (stop, mach) := Impl.runExt (Generated.opTable model) Generated.consts model bus 60000 0x0800 true
         { regs := regs0, cycles := 0, mem := { inner := sb0, log := [] } }
       let kind := if kindOf stop == "halt" then "halt" else "error"
       let obsOf (sb : SBus) : String :=
@@ -107,7 +107,7 @@ def handleTrap (line : String) : String :=
           (let ds := diffs.filter (· != "loads")
            if ds.isEmpty then [] else ["C10:trap:" ++ ",".intercalate (ds.map fun d => (d.splitOn ":").head!)])
         else
-          match specRunB bus model 20000 { regs0 with pc := 0x0800 } { inner := sb0, log := [] } 0 with
+          match specRunB bus model 60000 { regs0 with pc := 0x0800 } { inner := sb0, log := [] } 0 with
           | none => []
           | some (r', b', cyc) =>
             let stores (t : Array Event) := t.toList.filter (·.write)
